@@ -1,10 +1,132 @@
-(* C08 — Storage slot accounting and reclamation are exact.  Statements only. *)
+(* C08 — Storage slot accounting and reclamation are exact.
+   Statements only; every proof is [exact lemma].
+
+   Model: coq/Storage/Model.v (persist/sqlite volumes.go, sectors.go, contracts.go expiry and
+   root-list changes, RejectContracts), corresponding to the code WITH
+   fixes/C08-v2-expiry-status.patch.  [runs init l] ranges over ALL finite sequences of the
+   operations of [op]: every Store method of the anchors with arbitrary arguments on any number
+   of volumes of any sizes, plus the single-row pieces of the batch loops (DropRoot, DropTemp,
+   PruneOne, MigrateOne), so that the sequences include every interleaving of other operations
+   with a running expire/prune/migrate loop at transaction granularity.
+
+   Readings (least demanding the text allows):
+   - "every stored sector occupies exactly one slot": a sector that is in a slot is in no second
+     one (rows of stored_sectors are never deleted, so "stored" cannot mean "has a row").
+   - counters are compared when a Store method has returned (RemoveVolume's own batches are one
+     step: between them the volume being destroyed has a stale used_sectors by design).
+   - "past its proof window" is the code's boundary [window_end < h] (v2: [expiration_height < h]);
+     temp storage "expiring after h" is [h < expiration].
+   - "followed by a prune": a prune whose cutoff is later than every access.
+   - StoreSector's choice among the empty slots of writable volumes is carried by the operation
+     (validated by the model), so the theorems hold for every choice the SQL allows. *)
 From HostdBase Require Import Base.
-From HostdStorage Require Import Model Lemmas Proofs.
+From HostdStorage Require Import Model Lemmas Proofs Proofs2.
 
-Theorem c08_stub : forall s, runs s [] = s.
-Proof. exact runs_nil. Qed.
-Print Assumptions c08_stub.
+(* Each stored sector occupies exactly one slot ... *)
+Theorem c08_sector_in_one_slot : forall (l : list op) v i v' i' r,
+  slot_at (runs init l) v i = Some (Some r) -> slot_at (runs init l) v' i' = Some (Some r) ->
+  v = v' /\ i = i'.
+Proof. exact (fun l v i v' i' r => slot_injective (runs init l) v i v' i' r (inv_runs l init inv_init)). Qed.
+Print Assumptions c08_sector_in_one_slot.
 
-Example c08_nonvacuous : fst (step init (AddVol 1 false)) <> init.
-Proof. vm_compute; discriminate. Qed.
+(* ... and each slot (volume, index) exists once and so holds at most one sector. *)
+Theorem c08_slot_unique : forall (l : list op),
+  NoDup (map vid (vols (runs init l))) /\
+  forall vl, In vl (vols (runs init l)) -> NoDup (map fst (vslots vl)).
+Proof. exact (fun l => slot_unique (runs init l) (inv_runs l init inv_init)). Qed.
+Print Assumptions c08_slot_unique.
+
+(* Per-volume used/total and the global total/physical/contract/temp metrics equal recounts. *)
+Theorem c08_counters_are_recounts : forall (l : list op),
+  let s := runs init l in
+  (forall vl, In vl (vols s) -> vused vl = n_used vl /\ vtotal vl = n_slots vl) /\
+  mTotal (mets s) = gsum n_slots (vols s) /\
+  mPhys (mets s) = gsum n_used (vols s) /\
+  mContract (mets s) = csum (cons s) /\
+  mTemp (mets s) = Z.of_nat (length (temps s)).
+Proof. exact (fun l => counters_exact (runs init l) (inv_runs l init inv_init)). Qed.
+Print Assumptions c08_counters_are_recounts.
+
+(* The lost-sector metric grows exactly by the occupied slots an operation destroys, and only
+   RemoveSector / RemoveVolume change it. *)
+Theorem c08_lost_exact : forall (l : list op) o, loss_op o = true ->
+  let s := runs init l in
+  (mLost (mets (fst (step s o))) - mLost (mets s) = occ_total s - occ_total (fst (step s o)))%Z.
+Proof. exact (fun l o H => lost_exact (runs init l) o (inv_runs l init inv_init) H). Qed.
+Print Assumptions c08_lost_exact.
+
+Theorem c08_lost_unchanged_otherwise : forall s o, loss_op o = false ->
+  mLost (mets (fst (step s o))) = mLost (mets s).
+Proof. exact lost_unchanged. Qed.
+Print Assumptions c08_lost_unchanged_otherwise.
+
+(* Placement: a sector that had no slot and is stored successfully went to an empty slot of an
+   available, writable volume (and is there afterwards). *)
+Theorem c08_placement_only_writable : forall r loc ok s s',
+  step s (Store r loc ok) = (s', ORes (Ok tt)) -> vfind r (vols s) = None ->
+  exists v i vl, loc = Some (v, i) /\ ok = true /\
+    vget v (vols s) = Some vl /\ vavail vl = true /\ vro vl = false /\
+    sget i (vslots vl) = Some None /\ slot_at s' v i = Some (Some r).
+Proof. exact store_placement. Qed.
+Print Assumptions c08_placement_only_writable.
+
+(* ErrNotEnoughStorage exactly when the sector has no slot and no available, writable volume has
+   an empty one ([has_free_spec] spells [has_free] out). *)
+Theorem c08_not_enough_storage_iff : forall r loc ok s,
+  snd (step s (Store r loc ok)) <> OBad ->
+  (snd (step s (Store r loc ok)) = ORes (Err ENotEnoughStorage) <->
+   vfind r (vols s) = None /\ has_free s = false).
+Proof. exact store_not_enough_iff. Qed.
+Print Assumptions c08_not_enough_storage_iff.
+
+Theorem c08_has_free_spec : forall s,
+  has_free s = true <->
+  exists vl i, In vl (vols s) /\ vavail vl = true /\ vro vl = false /\ In (i, None) (vslots vl).
+Proof. exact has_free_spec. Qed.
+Print Assumptions c08_has_free_spec.
+
+(* ... and with room the store succeeds at whichever eligible slot was picked. *)
+Theorem c08_store_succeeds_with_room : forall (l : list op) r v i,
+  let s := runs init l in
+  vfind r (vols s) = None -> valid_free s v i = true ->
+  snd (step s (Store r (Some (v, i)) true)) = ORes (Ok tt).
+Proof. exact (fun l r v i => store_ok_if r v i (runs init l) (inv_runs l init inv_init)). Qed.
+Print Assumptions c08_store_succeeds_with_room.
+
+(* Reclamation: after ExpireContractSectors h; ExpireV2ContractSectors h; ExpireTempSectors h;
+   PruneSectors, a slot is occupied iff it was occupied by the same sector before and that
+   sector is referenced by a live contract or by temp storage expiring after h. *)
+Theorem c08_reclaim_exact : forall (l : list op) h v i r,
+  let s := runs init l in
+  slot_at (reclaim h s) v i = Some (Some r) <->
+  slot_at s v i = Some (Some r) /\ live_ref s h r = true.
+Proof. exact (fun l h v i r => reclaim_occupied_iff (runs init l) h v i r (inv_runs l init inv_init)). Qed.
+Print Assumptions c08_reclaim_exact.
+
+Theorem c08_live_ref_spec : forall s h r,
+  live_ref s h r = true <->
+  (exists c, In c (cons s) /\ crej c = false /\ ~ (cend c < h)%N /\ In r (croots c)) \/
+  (exists e, In (r, e) (temps s) /\ (h < e)%N).
+Proof. exact live_ref_spec. Qed.
+Print Assumptions c08_live_ref_spec.
+
+Theorem c08_reclaim_keeps_empty_slots : forall (l : list op) h v i,
+  slot_at (runs init l) v i = Some None -> slot_at (reclaim h (runs init l)) v i = Some None.
+Proof. exact (fun l h v i => reclaim_empty_stays (runs init l) h v i (inv_runs l init inv_init)). Qed.
+Print Assumptions c08_reclaim_keeps_empty_slots.
+
+(* non-vacuity: a reachable state with two volumes, a sector kept by a live v2 contract, one
+   dropped because its v2 contract was rejected, one dropped because its temp entry expired *)
+Definition c08_demo : list op :=
+  [AddVol 1 false; SetAvail 1 true; Grow 1 2; AddVol 2 false; SetAvail 2 true; Grow 2 2;
+   Store 7 (Some (1, 0)) true; Store 8 (Some (2, 0)) true; Store 9 (Some (1, 1)) true;
+   AddC 1 true 20 1; AddC 2 true 20 9; ReviseV2 1 [7]; ReviseV2 2 [8]; AddTemp [(9, 10)];
+   Reject 5]%N.
+Example c08_nonvacuous :
+  slot_at (runs init c08_demo) 1 0 = Some (Some 7%N) /\
+  slot_at (reclaim 10 (runs init c08_demo)) 1 0 = Some None /\
+  slot_at (reclaim 10 (runs init c08_demo)) 2 0 = Some (Some 8%N) /\
+  slot_at (reclaim 10 (runs init c08_demo)) 1 1 = Some None /\
+  snd (step (reclaim 10 (runs init c08_demo)) (Snapshot [])) =
+    OSnap [(1%N, false, true, 2%Z, 0%Z); (2%N, false, true, 2%Z, 1%Z)] (4, 1, 0, 1, 0)%Z [] [(2%N, true, [8%N])].
+Proof. vm_compute. repeat split; reflexivity. Qed.
